@@ -1,5 +1,6 @@
 SPECIFICATION Spec
 CONSTANTS MaxH = 8
+ EmitCases = FALSE
  YPad = "top"
 INVARIANT NeverThree
 CHECK_DEADLOCK FALSE
